@@ -387,7 +387,56 @@ def run(ctx):
                      cf.loc(), why_fail=f"{got!r}")
         except Raised as e:
             r2.fail(f"builder:reload {attr}", f"evaluates ({e.exc_name}{e.exc_args})", cf.loc())
+    rules.append(builder_input_rule(ctx, "C16", "C16.R9"))
     return rules
+
+
+def builder_input_rule(ctx, prop, rid):
+    """The dict a survey is built from belongs to the caller (ConvertResult._pyxform, a loaded JSON document, the value
+    of to_json_dict()): building from it a second time, or dumping it afterwards, must see the same dict.  Decided as an
+    effects rule: no builder method removes an entry from (pop / del / clear / popitem) data reachable from a
+    parameter; constructors receive **d (a fresh kwargs dict) and may consume that."""
+    from ..effects import root_name, writes_in
+    r = Rule(prop, rid, "the builder does not consume the dict it builds from", floor=2,
+             necessary="an entry popped from the caller's dict is missing from the next build and from the JSON written from it")
+    bcls = ctx.repo.cls("pyxform.builder:SurveyElementBuilder")
+    n = 0
+    for name, fi in sorted(bcls.methods.items()):
+        a = fi.node.args
+        params = {x.arg for x in [*a.posonlyargs, *a.args, *a.kwonlyargs]} - {"self"}
+        # locals bound to (parts of) a parameter without a copy
+        alias = set(params)
+        changed = True
+        while changed:
+            changed = False
+            for x in walk_own(fi.node):
+                if isinstance(x, ast.Assign) and len(x.targets) == 1 and isinstance(x.targets[0], ast.Name) and x.targets[0].id not in alias:
+                    v = x.value
+                    while isinstance(v, ast.Subscript | ast.Attribute) or (isinstance(v, ast.Call) and isinstance(v.func, ast.Attribute) and v.func.attr in ("get", "setdefault")):
+                        v = v.func.value if isinstance(v, ast.Call) else v.value
+                    if isinstance(v, ast.Name) and v.id in alias:
+                        alias.add(x.targets[0].id)
+                        changed = True
+                elif isinstance(x, ast.For) and isinstance(x.target, ast.Name) and x.target.id not in alias and isinstance(x.iter, ast.Name) and x.iter.id in alias:
+                    alias.add(x.target.id)
+                    changed = True
+        for kind, tgt, node in writes_in(fi.node):
+            if kind == "del":
+                meth = "del"
+            elif kind == "mutator" and node.func.attr in ("pop", "popitem", "clear"):
+                meth = node.func.attr
+            else:
+                continue
+            t = tgt
+            while isinstance(t, ast.Subscript | ast.Attribute) or (isinstance(t, ast.Call) and isinstance(t.func, ast.Attribute) and t.func.attr in ("get", "setdefault")):
+                t = t.func.value if isinstance(t, ast.Call) else t.value
+            rn = t.id if isinstance(t, ast.Name) else None
+            n += 1
+            r.check(rn not in alias, f"{fi.qualname}:{meth} on {norm(tgt)[:40]}", "deleting writes do not reach the dict being built from", fi.loc(node),
+                    why_fail=f"`{norm(node)[:70]}` removes an entry from the caller's dict (via `{rn}`)")
+    r.ok("builder deleting writes census", f"{n} deleting writes in {len(bcls.methods)} builder methods examined", bcls.module.relpath)
+    r.check(len(bcls.methods) >= 6, "builder methods census", "the builder's methods were found", bcls.module.relpath)
+    return r
 
 
 def _question_roundtrip_rule(ctx):
